@@ -18,7 +18,8 @@ ASSUMPTIONS = ["tokio::sync::Mutex is FIFO-fair (modelled by `waiters`); a trans
 Case = Case
 IMPL_SHARDS = 16
 
-CAUSES = {"close": ("X", None), "eof": ("F:eof", None), "err": ("F:err", None), "alert": ("F:alert", None), "fail": ("FAIL", "write")}
+CAUSES = {"close": ("X", None), "eof": ("F:eof", None), "err": ("F:err", None), "alert": ("F:alert", None), "fail": ("FAIL", "write"),
+          "cut3": ("F:cut:3", None), "cut7": ("F:cut:7", None), "cut12": ("F:cut:12", None)}
 
 
 def corpus_cases():
@@ -108,7 +109,7 @@ def oracle(c, ir):
     args = " ".join(c.args)
     progs = [p.split() for p in args.split(" sched ")[0].split("|")[1:]]
     # a cause has fired if an explicit close / EOF / error / alert call was executed, or some write hit the failed transport
-    has_cause = any(tok in ("X", "F:eof", "F:err", "F:alert") for p in progs for tok in p) or \
+    has_cause = any(tok in ("X", "F:eof", "F:err", "F:alert") or tok.startswith("F:cut:") for p in progs for tok in p) or \
         any("io" in res for _, (_, res) in o["tasks"].items())
     # nobody is left blocked: after the drain every task has finished its program
     for t, (pc, res) in o["tasks"].items():
